@@ -1079,47 +1079,62 @@ namespace chaiscript {
 
         Char_Parser &operator=(const Char_Parser &) = delete;
 
+        /// Flushes an escape sequence that is still pending at the end of the literal. Must be called once
+        /// all characters have been parsed; an error in the pending sequence is reported to the caller
+        void finish() {
+          if (is_octal) {
+            process_octal();
+          }
+
+          if (is_hex) {
+            process_hex();
+          }
+
+          if (unicode_size > 0) {
+            process_unicode();
+          }
+        }
+
         ~Char_Parser() {
           try {
-            if (is_octal) {
-              process_octal();
-            }
-
-            if (is_hex) {
-              process_hex();
-            }
-
-            if (unicode_size > 0) {
-              process_unicode();
-            }
-          } catch (const std::invalid_argument &) {
-          } catch (const exception::eval_error &) {
-            // Something happened with parsing, we'll catch it later?
+            finish();
+          } catch (const std::exception &) {
+            // only reachable when parsing was abandoned because of an earlier error
           }
         }
 
         void process_hex() {
-          if (!hex_matches.empty()) {
+          const bool has_digits = !hex_matches.empty();
+          if (has_digits) {
             auto val = stoll(hex_matches, nullptr, 16);
             match.push_back(char_type(val));
           }
           hex_matches.clear();
           is_escaped = false;
           is_hex = false;
+          if (!has_digits) {
+            throw exception::eval_error("Hexadecimal escape sequence without digits");
+          }
         }
 
         void process_octal() {
+          bool in_range = true;
           if (!octal_matches.empty()) {
             auto val = stoll(octal_matches, nullptr, 8);
+            in_range = val <= static_cast<long long>(std::numeric_limits<std::make_unsigned_t<char_type>>::max());
             match.push_back(char_type(val));
           }
           octal_matches.clear();
           is_escaped = false;
           is_octal = false;
+          if (!in_range) {
+            throw exception::eval_error("Octal escape sequence out of range");
+          }
         }
 
         void process_unicode() {
-          const auto ch = static_cast<uint32_t>(std::stoi(hex_matches, nullptr, 16));
+          // at most 8 hex digits are ever collected, which always fits an unsigned long long
+          const auto ch = static_cast<uint32_t>(hex_matches.empty() ? 0 : std::stoull(hex_matches, nullptr, 16));
           const auto match_size = hex_matches.size();
           hex_matches.clear();
           is_escaped = false;
@@ -1130,7 +1145,7 @@ namespace chaiscript {
           if (u_size != match_size) {
             throw exception::eval_error("Incomplete unicode escape sequence");
           }
-          if (u_size == 4 && ch >= 0xD800 && ch <= 0xDFFF) {
+          if (ch >= 0xD800 && ch <= 0xDFFF) {
             throw exception::eval_error("Invalid 16 bit universal character");
           }
 
@@ -1145,7 +1160,7 @@ namespace chaiscript {
             buf[1] = static_cast<char>(0x80 | ((ch >> 6) & 0x3F));
             buf[2] = static_cast<char>(0x80 | (ch & 0x3F));
             match.append(buf, 3);
-          } else if (ch < 0x200000) {
+          } else if (ch <= 0x10FFFF) {
             buf[0] = static_cast<char>(0xF0 | (ch >> 18));
             buf[1] = static_cast<char>(0x80 | ((ch >> 12) & 0x3F));
             buf[2] = static_cast<char>(0x80 | ((ch >> 6) & 0x3F));
@@ -1348,6 +1363,12 @@ namespace chaiscript {
               match.push_back('$');
             }
 
+            try {
+              cparser.finish();
+            } catch (const exception::eval_error &e) {
+              throw exception::eval_error(e.reason, File_Position(start.line, start.col), *m_filename);
+            }
+
             return cparser.is_interpolated;
           }();
 
@@ -1406,6 +1427,12 @@ namespace chaiscript {
 
             for (auto s = start + 1, end = m_position - 1; s != end; ++s) {
               cparser.parse(*s, start.line, start.col, *m_filename);
+            }
+
+            try {
+              cparser.finish();
+            } catch (const exception::eval_error &e) {
+              throw exception::eval_error(e.reason, File_Position(start.line, start.col), *m_filename);
             }
           }
 
